@@ -114,6 +114,12 @@ func c16Exec(x *Ctx) {
 			tree = append(tree, tEntry{Rel: rel, Kind: 'd'})
 		}
 		tree = append(tree, tEntry{Rel: rel + "/leaf", Kind: 'f', Size: 33})
+		// and a symbolic link to the chain: the same objects are reachable through the link
+		tree = append(tree, tEntry{Rel: "chainlink", Kind: 'l', Target: "chain"})
+		first := strings.SplitN(strings.TrimPrefix(rel, "chain/"), "/", 3)
+		if len(first) >= 2 {
+			tree = append(tree, tEntry{Rel: "chainlink/" + first[0], Kind: 'v'}, tEntry{Rel: "chainlink/" + first[0] + "/" + first[1], Kind: 'v'})
+		}
 	}
 	if err := makeTree(u.Root, tree); err != nil {
 		x.Trouble("tree: %v", err)
@@ -216,11 +222,15 @@ func c16Exec(x *Ctx) {
 				}
 				// the walk under test: a prefix of an existing path below start, then possibly names that do not exist
 				var names []string
+				var cands []string
 				for _, t := range tree {
-					if strings.HasPrefix(t.Rel, e.Rel) && t.Rel != e.Rel && (e.Rel == "" || strings.HasPrefix(t.Rel, e.Rel+"/")) && r.Pct(30) {
-						names = strings.Split(strings.TrimPrefix(strings.TrimPrefix(t.Rel, e.Rel), "/"), "/")
-						break
+					if strings.HasPrefix(t.Rel, e.Rel) && t.Rel != e.Rel && (e.Rel == "" || strings.HasPrefix(t.Rel, e.Rel+"/")) {
+						cands = append(cands, t.Rel)
 					}
+				}
+				if len(cands) > 0 && r.Pct(85) {
+					t := cands[r.Intn(len(cands))]
+					names = strings.Split(strings.TrimPrefix(strings.TrimPrefix(t, e.Rel), "/"), "/")
 				}
 				if len(names) > 14 {
 					names = names[:14]
@@ -287,11 +297,10 @@ func c16Exec(x *Ctx) {
 						}
 					}
 				}
-				for i := range names {
-					if i < exist-1 || (i < exist && i < len(names)-1) {
-						if fi, err := os.Lstat(filepath.Join(append([]string{start}, names[:i+1]...)...)); err == nil && fi.Mode()&os.ModeSymlink != 0 && i < exist-1 {
-							x.Probe("walk-through-symlink-to-directory")
-						}
+				for i := 0; i+1 < exist; i++ {
+					if fi, err := os.Lstat(filepath.Join(append([]string{start}, names[:i+1]...)...)); err == nil && fi.Mode()&os.ModeSymlink != 0 {
+						x.Probe("walk-through-symlink-to-directory")
+						break
 					}
 				}
 				full := exist == len(names)
